@@ -23,7 +23,8 @@ RULE = ("E1: every document with <= 3 nodes (4 by stride; C01 alphabet, so "
         "every scalar leaf addressed by its coordinate path x 12 new values "
         "(null, true, 7, 2.25, 'zz', '') and 6 floats (10.0, 1.0, -300.0, 1e20, "
         "0.30000000000000004, 1.5e-07), the same with the keys moved onto "
-        "-1 / 0 / 12 / '-1' / 'b c', plus C01-vocabulary paths matching "
+        "-1 / 0 / 12 / '-1' / 'b c', sequence elements also addressed as "
+        "(parent)[i] through a Collector, plus C01-vocabulary paths matching "
         "only scalars; an enumerated family of anchored documents (scalar "
         "anchors aliased under keys, inside sequences and next to sets) with "
         "a set through the anchor and through each alias. Oracle: a "
@@ -92,8 +93,11 @@ def _set_collision(matches, value):
     return False
 
 
-def check_set(text, segs, value, res, doc_a=None, expect_targets=None):
-    """One set on a fresh copy.  doc_a: untouched loaded copy."""
+def check_set(text, segs, value, res, doc_a=None, expect_targets=None,
+              ptext_override=None):
+    """One set on a fresh copy.  doc_a: untouched loaded copy.
+    ptext_override: another spelling of the same selection (e.g. through a
+    Collector); the model still evaluates segs."""
     from yamlpath.exceptions import YAMLPathException
     if doc_a is None:
         doc_a, ok = gdocs.load(text)
@@ -110,7 +114,7 @@ def check_set(text, segs, value, res, doc_a=None, expect_targets=None):
     if _set_collision(matches, value):
         res.label("unspecified:set-member-collision")
         return
-    ptext = gpaths.render(segs, ".")
+    ptext = ptext_override or gpaths.render(segs, ".")
     replace = {medit.poskey(m.p, m.r) for m in matches}
     alias_ids = {id(m.v) for m in matches if anchor_of(m.v) is not None}
     newc = cscalar(value)
@@ -120,6 +124,8 @@ def check_set(text, segs, value, res, doc_a=None, expect_targets=None):
     anchors_before = sorted(set(anchors(doc_a).values()))
     cells_before = [[repr(p) for p in g] for g in alias_cells(doc_a)]
     case = {"doc": text, "path": gpaths.to_json(segs), "value": value}
+    if ptext_override:
+        case["text"] = ptext_override
     res.evaluations += 1
     doc_b, _ = gdocs.load(text)
     proc = real.processor(doc_b)
@@ -539,6 +545,16 @@ def run_shard(shard):
                         continue
                     for value in NEW_VALUES:
                         check_set(text, segs, value, res, doc_a)
+                    if is_seq(parent) and len(segs) >= 2 and \
+                            shard.get("keyvar") is None:
+                        # the same element reached through a Collector that
+                        # gathers its parent sequence: (P)[i]
+                        coll = "(%s)[%d]" % (gpaths.render(segs[:-1], "."),
+                                             segs[-1][1])
+                        for value in NEW_VALUES[2:4]:
+                            check_set(text, segs, value, res, doc_a,
+                                      ptext_override=coll)
+                        res.label("collector-spelling")
             else:
                 for pi, segs in enumerate(vocab_paths()):
                     if (di * 31 + pi + shard["offset"]) % shard["stride"]:
@@ -565,5 +581,5 @@ def replay(case):
         replay_history(case, res)
     else:
         check_set(case["doc"], gpaths.from_json(case["path"]), case["value"],
-                  res)
+                  res, ptext_override=case.get("text"))
     return [r for _, recs in res.failures.values() for r in recs]
